@@ -34,6 +34,9 @@ const CASE_TIMEOUT: Duration = Duration::from_secs(120);
 /// How long a step waits for the wake-ups the model promises.
 const WAKE_TIMEOUT: Duration = Duration::from_secs(25);
 
+/// Steps that waited for promised wake-ups in vain (whole run).
+static HANGS: std::sync::atomic::AtomicUsize = std::sync::atomic::AtomicUsize::new(0);
+
 enum Msg {
     Start(usize),
     Problem { ty: String, sig: Value, desc: String, idx: usize, step: usize },
